@@ -1052,8 +1052,8 @@ func (fr *Frame) val(v ssa.Value) Val {
 	case *ssa.Global:
 		key := "G_" + sanitize(c.Pkg.Pkg.Name()+"_"+c.Name())
 		// sentinel errors (package-level `var ErrX = errors.New(...)`) are distinct non-nil constants at function entry
-		if strings.HasPrefix(c.Name(), "Err") && !vc.decl[key+"$sentinel"] {
-			if pt, ok := c.Type().Underlying().(*types.Pointer); ok && types.IsInterface(pt.Elem()) {
+		if (strings.HasPrefix(c.Name(), "Err") || strings.HasPrefix(c.Name(), "err") || c.Name() == "EOF" || c.Name() == "Canceled" || c.Name() == "DeadlineExceeded") && !vc.decl[key+"$sentinel"] {
+			if pt, ok := c.Type().Underlying().(*types.Pointer); ok && types.IsInterface(pt.Elem()) && pt.Elem().String() == "error" {
 				vc.decl[key+"$sentinel"] = true
 				g0 := vc.initGlob(key, SInt)
 				vc.sigs = append(vc.sigs, fmt.Sprintf("(assert (= %s %d))", g0.S, 900000+vc.eng.addrKind(key)))
